@@ -69,30 +69,69 @@ pub fn find(haystack: &str, needle: &str) -> Option<usize> {
 
     let (crit, period) = crit_period(n);
     let anchor = n[crit];
+    #[cfg(naijascript_verif)]
+    crate::verif::emit(VERIF_TW, || format!("{{\"ev\":\"factor\",\"crit\":{crit}}}"));
 
     let mut offset = 0;
 
     while offset + nlen <= hlen {
         let index = memchr(anchor, h, offset);
         if index >= hlen {
+            #[cfg(naijascript_verif)]
+            verif_iter(offset, Some(index), None, "none", None);
             return None;
         }
 
         if index < crit {
+            #[cfg(naijascript_verif)]
+            verif_iter(offset, Some(index), None, "before", Some(index + 1));
             offset = index + 1;
             continue;
         }
 
         let start = index - crit;
         if start + nlen <= hlen && &h[start..start + nlen] == n {
+            #[cfg(naijascript_verif)]
+            verif_iter(offset, Some(index), Some(start), "hit", None);
             return Some(start);
         }
+        #[cfg(naijascript_verif)]
+        let verif_offset = offset;
 
         let shift = max(1, period);
         offset = start.saturating_add(shift);
+        #[cfg(naijascript_verif)]
+        verif_iter(verif_offset, Some(index), Some(start), "miss", Some(offset));
     }
 
+    #[cfg(naijascript_verif)]
+    verif_iter(offset, None, None, "exit", None);
     None
+}
+
+/// Event class of the matcher hooks (see `crate::verif`).
+#[cfg(naijascript_verif)]
+pub const VERIF_TW: u32 = 1 << 12;
+
+/// One event per iteration of the long-needle loop: the registers at the loop head, how the
+/// iteration ended and the value assigned to `offset` (-1 where a register was not computed).
+#[cfg(naijascript_verif)]
+fn verif_iter(
+    offset: usize,
+    index: Option<usize>,
+    start: Option<usize>,
+    dec: &str,
+    next: Option<usize>,
+) {
+    let num = |v: Option<usize>| v.map_or(-1, usize::cast_signed);
+    crate::verif::emit(VERIF_TW, || {
+        format!(
+            "{{\"ev\":\"iter\",\"offset\":{offset},\"index\":{},\"start\":{},\"dec\":\"{dec}\",\"next\":{}}}",
+            num(index),
+            num(start),
+            num(next)
+        )
+    });
 }
 
 #[inline]
